@@ -21,7 +21,7 @@ from dagrt.exec_numpy import FailStepException, NumpyInterpreter, TransitionEven
 from dagrt.language import DAGCode, ExecutionPhase
 
 from simdag.core.outcome import Discard, Violation
-from simdag.gen.fortran_subset import FortranGen, make_registry, user_type_map
+from simdag.gen.fortran_subset import FortranGen, make_registry, module_preamble, user_type_map
 from simdag.gen.script import ERRORS, apply_script
 from simdag.model.refstepper import is_persistent
 
@@ -121,8 +121,9 @@ def make_driver(sc, nmgr, pers, yields, n_elem):
     L = []
     a = L.append
     a("program driver")
+    struct = getattr(sc, "struct", None)
     a("  use m, only: dagrt_state_type, dagrt_initialize => initialize, dagrt_run => run, &")
-    a("    dagrt_shutdown => shutdown")
+    a("    dagrt_shutdown => shutdown" + (", ytype" if struct else ""))
     a("  implicit none")
     a("  type(dagrt_state_type), target :: st")
     a("  type(dagrt_state_type), pointer :: sp")
@@ -130,6 +131,7 @@ def make_driver(sc, nmgr, pers, yields, n_elem):
     init_args = ["dagrt_state=sp"]
     decl = []
     setv = []
+    free = []
     for ir in pers:
         fname = nmgr.name_global(ir)
         if ir == "<t>":
@@ -138,7 +140,15 @@ def make_driver(sc, nmgr, pers, yields, n_elem):
             init_args.append("%s=%s" % (fname, lit(sc.dt0)))
         elif ir.startswith("<state>"):
             v = sc.state0[ir[7:]]
-            if isinstance(v, np.ndarray):
+            if isinstance(v, np.ndarray) and struct and sc.types.get(ir) == "ut":
+                na, nb = struct
+                decl.append("  type(ytype) :: v_%s" % fname)
+                setv.append("  v_%s%%a = (/ %s /)" % (fname, ", ".join(lit(x) for x in v[:na])))
+                setv.append("  allocate(v_%s%%b(%d))" % (fname, nb))
+                setv.append("  v_%s%%b = (/ %s /)" % (fname, ", ".join(lit(x) for x in v[na:])))
+                init_args.append("%s=v_%s" % (fname, fname))
+                free.append("  deallocate(v_%s%%b)" % fname)
+            elif isinstance(v, np.ndarray):
                 decl.append("  real*8 :: v_%s(%d)" % (fname, len(v)))
                 setv.append("  v_%s = (/ %s /)" % (fname, ", ".join(lit(x) for x in v)))
                 init_args.append("%s=v_%s" % (fname, fname))
@@ -148,6 +158,7 @@ def make_driver(sc, nmgr, pers, yields, n_elem):
     a("  sp => st")
     L.extend(setv)
     a("  call dagrt_initialize(%s)" % ", &\n    ".join(init_args))
+    L.extend(free)          # initialize() copies: the driver's own storage must not show up as a leak
     a("  read(*,*) nruns")
     a("  do r = 1, nruns")
     a("    call dagrt_run(dagrt_state=sp)")
@@ -155,7 +166,16 @@ def make_driver(sc, nmgr, pers, yields, n_elem):
     a("    write(*,'(A,I0)') 'PHASE ', st%dagrt_next_phase")
     for ir in pers:
         fname = nmgr.name_global(ir)
-        if sc.types.get(ir) in ("ut", "utv"):
+        if sc.types.get(ir) == "ut" and struct:
+            a("    if (associated(st%%%s)) then" % fname)
+            for mem, cnt in (("a", struct[0]), ("b", struct[1])):
+                a("      do i = 1, %d" % cnt)
+                a("        write(*,'(A,I0,A,%s)') 'A %s ', i, ' ', st%%%s%%%s(i)" % (FMT, ir, fname, mem))
+                a("      end do")
+            a("    else")
+            a("      write(*,'(A)') 'U %s'" % ir)
+            a("    end if")
+        elif sc.types.get(ir) in ("ut", "utv"):
             a("    if (associated(st%%%s)) then" % fname)
             a("      do i = 1, %d" % ut_len(sc, ir))
             a("        write(*,'(A,I0,A,%s)') 'A %s ', i, ' ', st%%%s(i)" % (FMT, ir, fname))
@@ -169,9 +189,15 @@ def make_driver(sc, nmgr, pers, yields, n_elem):
         rs, rt, ri = (nmgr.name_global("<ret_state>" + comp), nmgr.name_global("<ret_time>" + comp),
                       nmgr.name_global("<ret_time_id>" + comp))
         a("    if (associated(st%%%s)) then" % rs)
-        a("      do i = 1, %d" % (sc.M if comp == "v" else sc.N))
-        a("        write(*,'(A,I0,A,%s)') 'A <ret_state>%s ', i, ' ', st%%%s(i)" % (FMT, comp, rs))
-        a("      end do")
+        if comp == "y" and struct:
+            for mem, cnt in (("a", struct[0]), ("b", struct[1])):
+                a("      do i = 1, %d" % cnt)
+                a("        write(*,'(A,I0,A,%s)') 'A <ret_state>%s ', i, ' ', st%%%s%%%s(i)" % (FMT, comp, rs, mem))
+                a("      end do")
+        else:
+            a("      do i = 1, %d" % (sc.M if comp == "v" else sc.N))
+            a("        write(*,'(A,I0,A,%s)') 'A <ret_state>%s ', i, ' ', st%%%s(i)" % (FMT, comp, rs))
+            a("      end do")
         a("    else")
         a("      write(*,'(A)') 'U <ret_state>%s'" % comp)
         a("    end if")
@@ -502,7 +528,8 @@ def run_fortran_engine(ctx, prop):
     from dagrt.data import UnableToInferKind
     from dagrt.function_registry import FunctionNotFound
     try:
-        cg = f.CodeGenerator("m", function_registry=freg, user_type_map=user_type_map(sc))
+        cg = f.CodeGenerator("m", function_registry=freg, user_type_map=user_type_map(sc),
+                             module_preamble=module_preamble(sc))
         import contextlib
         import io
         buf = io.StringIO()
@@ -608,6 +635,10 @@ def run_fortran_engine(ctx, prop):
     if n_moves:
         ctx.count("probe:ut_move", n_moves)
     n_ut_temps = len([n for n, ty in sc.types.items() if ty in ("ut", "utv") and not n.startswith("<")])
+    if getattr(sc, "struct", None):
+        ctx.count("probe:structure_user_type")
+    if getattr(sc, "has_v", False):
+        ctx.count("probe:two_user_types")
     if n_ut_temps:
         ctx.count("probe:ut_temporaries", n_ut_temps)
         if "failed" in outcomes or "switched" in outcomes:
